@@ -1070,8 +1070,13 @@ func c07BurstCase(c *mon.Case, retry bool) {
 				}
 			case k < 13:
 				ctx, tag := cx.fresh()
+				if r.IntN(8) == 0 {
+					// a context that is already done (cancelled / deadline passed): it replaces the previous one all the same
+					ctx, tag = cx.freshDone(r.IntN(2))
+					c.Count("setcontext_done_context_calls", 1)
+				}
 				restart := r.IntN(2) == 0
-				c.Rec("d", fmt.Sprint("SetContext new#", tag, " restart=", restart), nil)
+				c.Rec("d", fmt.Sprint("SetContext new#", tag, " restart=", restart, " done=", ctx.Err() != nil), nil)
 				w.k.SetContext(ctx, restart)
 				lastCtxChange = c.Stamp()
 				if wasRunning {
@@ -1137,7 +1142,7 @@ func c07BurstCase(c *mon.Case, retry bool) {
 					}
 				}
 			}
-			if retry && cx.cur != nil {
+			if retry && cx.cur != nil && cx.cur.Err() == nil {
 				for key, in := range lastOf {
 					if !present[key] || in.exit.Load() == 0 || in.err == nil || in.superseded {
 						continue
